@@ -21,7 +21,7 @@ fn weak_key_test2(key: &[u8; 16]) -> Result<(), WeakKeyError> {
     let mut is_weak = 0u8;
     is_weak |= super::weak_key_test(k1);
     is_weak |= super::weak_key_test(k2);
-    is_weak |= u8::from(k1 == k2);
+    is_weak |= u8::from((k1 ^ k2) & super::PARITY_MASK == 0);
 
     match is_weak {
         0 => Ok(()),
@@ -39,9 +39,9 @@ fn weak_key_test3(key: &[u8; 24]) -> Result<(), WeakKeyError> {
     is_weak |= super::weak_key_test(k1);
     is_weak |= super::weak_key_test(k2);
     is_weak |= super::weak_key_test(k3);
-    is_weak |= u8::from(k1 == k2);
-    is_weak |= u8::from(k1 == k3);
-    is_weak |= u8::from(k2 == k3);
+    is_weak |= u8::from((k1 ^ k2) & super::PARITY_MASK == 0);
+    is_weak |= u8::from((k1 ^ k3) & super::PARITY_MASK == 0);
+    is_weak |= u8::from((k2 ^ k3) & super::PARITY_MASK == 0);
 
     match is_weak {
         0 => Ok(()),
